@@ -310,6 +310,12 @@ void expansionCase(Ctx& c, std::string const& variant) {
 	for (std::size_t i = 0; i != pv.size(); ++i) pv(i) = r.sym();
 	for (std::size_t i = 0; i != pw.size(); ++i) pw(i) = r.sym();
 	a.setParameterVector(pv); b.setParameterVector(pw);
+	// structured coefficients: expansions that were not sparsified keep basis elements whose whole row of
+	// coefficients is exactly zero (seeded change C18-4); every second case with >= 2 basis elements has one
+	if (nb >= 2 && r.coin()) {
+		std::size_t z = r.range(0, nb - 1);
+		for (std::size_t j = 0; j != a.alpha().size2(); ++j) a.alpha()(z, j) = 0.0;
+	}
 	RealMatrix probes = randMat(r, 3, d);
 
 	obsExpansion(c.A, a, probes);
